@@ -1800,9 +1800,124 @@ def stream_settings(ctx):
                                 "alone and all together, x 3 ways of copying; all instance attributes compared")
 
 
-def reparse(soup):
-    """decode() + parse with an equally configured builder: what a pickle round trip is allowed to be"""
-    return type(soup)(soup.decode(), builder=pickle.loads(pickle.dumps(soup.builder)))
+def reparse(soup, config="default"):
+    """decode() + parse with an equally configured, new builder: what a pickle round trip is allowed to be.
+    (Not a pickled copy of soup.builder: after __setstate__ the builder of an unpickled document still points back to the
+    document — `builder.soup` is cleared by __init__ only — and pickling that builder on its own fails in __setstate__.)"""
+    return type(soup)(soup.decode(), builder=type(soup.builder)(**config_kwargs(config)))
+
+
+def pickle_oracle(soup, p, config="default"):
+    """the property for one pickle round trip soup -> p: p is what decode() + re-parse of the CURRENT tree gives, equal to
+    the original where no normalisation applies, consistently linked and independent"""
+    bad = []
+    ref = reparse(soup, config)
+    if not (p == ref) or not (ref == p) or p.decode() != ref.decode():
+        bad.append(("the unpickled document is not the re-parse of the rendering of the document that was pickled", ref.decode(), p.decode()))
+    d = shape_diff(shape(ref), shape(p))
+    if d:
+        bad.append(("the unpickled document differs from the re-parse in classes / attributes / settings", "same", d))
+    if ref == soup and not (p == soup):
+        bad.append(("the unpickled document is not equal to the original", "==", "!="))
+    if ref == soup and ref.decode() == soup.decode() and hash(p) != hash(soup):
+        bad.append(("the unpickled document hashes differently from the (normalisation-free) original", hash(soup), hash(p)))
+    wm, pm = mutable_objects(soup), mutable_objects(p)
+    common = [pm[k] for k in pm if k in wm]
+    if common:
+        bad.append(("the unpickled document shares objects with the original", "none", "; ".join(common[:3])))
+    pe = pointer_errors(p)
+    if pe:
+        bad.append(("the unpickled document is not consistently linked", "consistent", "; ".join(pe)))
+    return bad
+
+
+def run_pickle_history(ctx, recipe, steps, stream):
+    """generations of pickling interleaved with observations, edits and copies. Every round trip is judged against the tree
+    as it is at that moment (a document that came out of a pickle keeps the markup it was rebuilt from)."""
+    cur = build(recipe)
+    gen = 0
+    for si, st in enumerate(steps):
+        case = {"op": "pickle-history", "recipe": recipe, "steps": steps[:si + 1]}
+        kind = st[0]
+        try:
+            if kind == "observe":
+                observe(cur)
+            elif kind == "edit":
+                try:
+                    apply_op(cur, st[1], cur)
+                except RecursionError:
+                    raise
+                except Exception:
+                    pass
+            elif kind in ("copy", "copy-switch"):
+                c = do_copy(cur, st[1])
+                ctx.case(None)
+                ctx.count(f"pickle-history:copy-of-generation-{min(gen, 3)}")
+                for what, exp, obs in oracle_copy(cur, cur, c):
+                    ctx.count(f"{stream}:oracle-fails")
+                    if not capped(ctx, stream):
+                        ctx.violation(f"copy of a document of pickle generation {gen}: {what}", case=case, expected=str(exp)[:2000],
+                                      observed=str(obs)[:2000], stream=stream)
+                if kind == "copy-switch":
+                    cur = c
+            elif kind == "pickle":
+                if len(all_nodes(cur)) > 70:
+                    return
+                p = pickle.loads(pickle.dumps(cur))
+                gen += 1
+                ctx.case(("pickle-history", json.dumps(case, sort_keys=True, default=str)[-200:], si) if gen > 1 else None)
+                ctx.count(f"pickle-history:generation-{min(gen, 4)}")
+                for what, exp, obs in pickle_oracle(cur, p, recipe.get("config", "default")):
+                    ctx.count(f"{stream}:oracle-fails")
+                    if not capped(ctx, stream):
+                        ctx.violation(f"pickle generation {gen}: {what}", case=case, expected=str(exp)[:2000], observed=str(obs)[:2000],
+                                      stream=stream)
+                cur = p
+            elif kind == "pickle-element":
+                nodes = all_nodes(cur)
+                if len(nodes) < 2 or len(nodes) > 25:
+                    continue
+                el = nodes[1 + st[1] % (len(nodes) - 1)]
+                q = pickle.loads(pickle.dumps(el))
+                ctx.case(None)
+                ctx.count("pickle-history:element")
+                wm, qm = mutable_objects(cur), mutable_objects(q)
+                if (not (q == el) or type(q) is not type(el) or renderings(q) != renderings(el) or any(k in wm for k in qm)) \
+                        and not capped(ctx, stream):
+                    ctx.violation(f"an element of a document of pickle generation {gen}, unpickled, is not an independent equal of it",
+                                  case=case, expected=renderings(el)[0], observed=renderings(q)[0], stream=stream)
+        except RecursionError:
+            ctx.count("pickle:recursion (C11)")
+            return
+        except Exception as ex:
+            if not capped(ctx, stream):
+                ctx.violation(f"step {kind} of a pickle history raised", case=case, expected="no exception",
+                              observed=f"{type(ex).__name__}: {ex}", stream=stream)
+            return
+
+
+def stream_pickle_history(ctx, n):
+    for hi in range(n):
+        r = ctx.rng("pickle-history", hi)
+        recipe = gen_recipe(r)
+        steps = []
+        for g in range(r.choice((2, 2, 3, 4))):
+            if r.random() < 0.3:
+                steps.append(["observe"])
+            steps.append(["pickle"])
+            if r.random() < 0.5:
+                steps.append(["observe"])
+            for k in range(r.choice((0, 1, 1, 2, 3))):
+                steps.append(["edit", gen_edit(r, r.choice(EDIT_KINDS), 700 + 10 * g + k)])
+            j = r.random()
+            if j < 0.25:
+                steps.append(["copy", r.choice(HOWS)])
+            elif j < 0.4:
+                steps.append(["copy-switch", r.choice(HOWS)])
+            elif j < 0.5:
+                steps.append(["pickle-element", r.randrange(64)])
+        steps.append(["pickle"])
+        run_pickle_history(ctx, recipe, steps, "pickle-history")
 
 
 def stream_pickle(ctx, n_docs):
@@ -1829,7 +1944,7 @@ def stream_pickle(ctx, n_docs):
         ctx.case(("pickle", di))
         ctx.count("pickle:documents")
         try:
-            ref = reparse(soup)
+            ref = reparse(soup, recipe.get("config", "default"))
         except Exception as ex:
             ctx.count("pickle:reparse-raised-" + type(ex).__name__)
             continue
@@ -1909,6 +2024,8 @@ def run_case(ctx, batch, c, stream):
         check_edit(ctx, batch, c["recipe"], tuple(c["path"]), c["how"], c["side"], c["edit"], stream, -1, primed=c.get("primed", True))
     elif op == "eq":
         check_pool(ctx, batch, c["recipe"], c["pool"], tuple(c["seed"]), stream, -1)
+    elif op == "pickle-history":
+        run_pickle_history(ctx, c["recipe"], c["steps"], stream)
 
 
 def run(ctx: Ctx):
@@ -1940,7 +2057,8 @@ def run(ctx: Ctx):
     stream_small(ctx, batch, ctx.n(5, 6))
     stream_random(ctx, batch, ctx.n(1200, 7000))
     stream_pools(ctx, batch, ctx.n(250, 1600))
-    stream_pickle(ctx, ctx.n(400, 3000))
+    stream_pickle(ctx, ctx.n(300, 3000))
+    stream_pickle_history(ctx, ctx.n(250, 2500))
     batch.flush()
     if ctx.lean is not None and not ctx.lean.ok:
         ctx.notes.append("Lean obligations did not check; the generated tables describe the source of copy_self/__init__: the copies "
@@ -1985,10 +2103,16 @@ def replay(path):
                 return 1
         print("every instance attribute kept")
         return 0
+    if op == "pickle-history":
+        run_pickle_history(ctx, c["recipe"], c["steps"], "replay")
+        print("tree:", ascii(build(c["recipe"]).decode()), "steps:", c["steps"])
+        for w in ctx.violations:
+            print("FAIL:", w["what"], "| expected:", ascii(str(w["expected"])[:300]), "| observed:", ascii(str(w["observed"])[:300]))
+        return 1 if ctx.violations else 0
     if op == "pickle":
         soup = build(c["recipe"])
         p = pickle.loads(pickle.dumps(soup))
-        ref = reparse(soup)
+        ref = reparse(soup, c["recipe"].get("config", "default"))
         print("original :", ascii(soup.decode()))
         print("unpickled:", ascii(p.decode()))
         print("re-parse :", ascii(ref.decode()))
